@@ -28,6 +28,7 @@ use vcore::{CaseCtx, Level, Session};
 
 const KF_WATCH_GET: &str = "KF-C05-01";
 const KF_CONN_LEVEL: &str = "KF-C05-02";
+const KF_REARM: &str = "KF-C05-03";
 
 /// scheduler turns a handler gets to answer one command (a command causes a handful of
 /// messages between the handler and the shard actors; nothing waits for time or real I/O)
@@ -663,6 +664,8 @@ struct Model {
     /// message of a KF-C05-01 candidate (EXEC applied although only GET-invisible changes
     /// happened to watched keys); the caller decides whether it is tolerated
     watch_get: Option<String>,
+    /// message of a KF-C05-03 candidate (executor tier: repeated WATCH re-armed the key)
+    rearm: Option<String>,
 }
 
 impl Model {
@@ -686,57 +689,56 @@ impl Model {
 
 enum WatchExpect {
     MustApply,
-    MustAbort { only_get_invisible: bool, detail: String },
-    /// a key was watched twice with different values in between and equals only one snapshot
-    Either,
+    MustAbort {
+        /// every changed watched key shows the same GET result at both times (KF-C05-01)
+        only_get_invisible: bool,
+        /// every key with a differing snapshot was watched again later and equals its
+        /// latest snapshot (KF-C05-03: a repeated WATCH re-arms the key)
+        rearmed_only: bool,
+        detail: String,
+    },
 }
 
-/// WATCH expectation from full typed values. A key watched several times: it has certainly
-/// changed if it differs from all of its snapshots, certainly not if it equals all of them.
+/// WATCH expectation from full typed values: a key is watched from its FIRST WATCH until
+/// EXEC/DISCARD/UNWATCH (naming it again is a no-op in Redis), so every snapshot taken by a
+/// WATCH that named the key must still equal the value at EXEC time.
 fn watch_expectation(watched: &[WatchRec], now: &Dump) -> WatchExpect {
-    let mut keys: Vec<&Vec<u8>> = watched.iter().map(|w| &w.key).collect();
-    keys.sort();
-    keys.dedup();
-    let mut definitely = Vec::new();
-    let mut possibly = false;
-    for k in keys {
-        let snaps: Vec<&WatchRec> = watched.iter().filter(|w| &w.key == k).collect();
-        let differing = snaps.iter().filter(|w| w.at_watch.as_ref() != now.get(k)).count();
-        if differing == snaps.len() {
-            definitely.push(k.clone());
-        } else if differing > 0 {
-            possibly = true;
-        }
+    let differing: Vec<&WatchRec> = watched.iter().filter(|w| w.at_watch.as_ref() != now.get(&w.key)).collect();
+    if differing.is_empty() {
+        return WatchExpect::MustApply;
     }
-    if !definitely.is_empty() {
-        let only_get_invisible = !possibly
-            && watched
-                .iter()
-                .filter(|w| w.at_watch.as_ref() != now.get(&w.key))
-                .all(|w| get_view(w.at_watch.as_ref()) == get_view(now.get(&w.key)));
-        let detail = watched
+    let only_get_invisible = differing
+        .iter()
+        .all(|w| get_view(w.at_watch.as_ref()) == get_view(now.get(&w.key)));
+    let rearmed_only = differing.iter().all(|w| {
+        watched
             .iter()
-            .filter(|w| definitely.contains(&w.key))
-            .map(|w| {
-                format!(
-                    "    watched {:?}: at WATCH {} — at EXEC {}",
-                    vcore::show(&w.key),
-                    w.at_watch.as_ref().map(|d| format!("[{}] {}", d.ty, d.value.show())).unwrap_or_else(|| "(missing)".into()),
-                    now.get(&w.key).map(|d| format!("[{}] {}", d.ty, d.value.show())).unwrap_or_else(|| "(missing)".into())
-                )
-            })
-            .collect::<Vec<_>>()
-            .join("\n");
-        WatchExpect::MustAbort { only_get_invisible, detail }
-    } else if possibly {
-        WatchExpect::Either
-    } else {
-        WatchExpect::MustApply
+            .rev()
+            .find(|l| l.key == w.key)
+            .map(|latest| latest.at_watch.as_ref() == now.get(&w.key))
+            .unwrap_or(false)
+    });
+    let detail = differing
+        .iter()
+        .map(|w| {
+            format!(
+                "    watched {:?}: at WATCH {} — at EXEC {}",
+                vcore::show(&w.key),
+                w.at_watch.as_ref().map(|d| format!("[{}] {}", d.ty, d.value.show())).unwrap_or_else(|| "(missing)".into()),
+                now.get(&w.key).map(|d| format!("[{}] {}", d.ty, d.value.show())).unwrap_or_else(|| "(missing)".into())
+            )
+        })
+        .collect::<Vec<_>>()
+        .join("\n");
+    WatchExpect::MustAbort {
+        only_get_invisible,
+        rearmed_only,
+        detail,
     }
 }
 
 /// Decide an EXEC reply inside MULTI. Ok(true) = the queue must have been applied.
-fn judge_exec(m: &mut Model, reply: &Reply, now: &Dump) -> Result<bool, String> {
+fn judge_exec(m: &mut Model, reply: &Reply, now: &Dump, executor_tier: bool) -> Result<bool, String> {
     let expect = watch_expectation(&m.watched, now);
     if !m.watched.is_empty() {
         m.label("with_watch");
@@ -745,7 +747,6 @@ fn judge_exec(m: &mut Model, reply: &Reply, now: &Dump) -> Result<bool, String> 
         }
         match &expect {
             WatchExpect::MustAbort { .. } => m.label("watched_value_changed"),
-            WatchExpect::Either => m.label("ambiguous_double_watch"),
             WatchExpect::MustApply => {
                 if m.b_after_watch {
                     m.label("watched_value_same_after_b")
@@ -771,7 +772,11 @@ fn judge_exec(m: &mut Model, reply: &Reply, now: &Dump) -> Result<bool, String> 
         ));
     }
     match expect {
-        WatchExpect::MustAbort { only_get_invisible, detail } => {
+        WatchExpect::MustAbort {
+            only_get_invisible,
+            rearmed_only,
+            detail,
+        } => {
             if is_nil(reply) {
                 return Ok(false);
             }
@@ -780,14 +785,16 @@ fn judge_exec(m: &mut Model, reply: &Reply, now: &Dump) -> Result<bool, String> 
                 reply.show(),
                 detail
             );
-            if only_get_invisible {
+            if executor_tier && rearmed_only {
+                m.rearm = Some(msg);
+                Ok(true)
+            } else if !executor_tier && only_get_invisible {
                 m.watch_get = Some(msg);
                 Ok(true)
             } else {
                 Err(msg)
             }
         }
-        WatchExpect::Either => Ok(!is_nil(reply)),
         WatchExpect::MustApply => {
             if is_nil(reply) {
                 return Err(format!(
@@ -968,7 +975,7 @@ impl Pair {
                     m.label("exec");
                     let now = dump_state(&self.real).await;
                     let r = self.a.call(&c).await?;
-                    if judge_exec(m, &r, &now)? {
+                    if judge_exec(m, &r, &now, false)? {
                         let got = exec_array(m, &r)?.clone();
                         for (i, q) in m.queued.clone().iter().enumerate() {
                             let e = normalise(q, &self.ta.call(q).await?);
@@ -1260,7 +1267,7 @@ fn check_exec_script(sc: &Script, ctx: &mut CaseCtx<'_>) -> Result<(), String> {
                     // nothing took effect since MULTI (checked after every step): the twin
                     // shows the keyspace as it was when EXEC arrived
                     let now = dump_executor(&mut twin, &extra);
-                    if judge_exec(&mut m, &r, &now)? {
+                    if judge_exec(&mut m, &r, &now, true)? {
                         let got = exec_array(&m, &r)?.clone();
                         for (i, q) in m.queued.clone().iter().enumerate() {
                             let Some(t) = ex(&mut twin, q) else { continue };
@@ -1303,9 +1310,14 @@ fn check_exec_script(sc: &Script, ctx: &mut CaseCtx<'_>) -> Result<(), String> {
     if r != Some(Reply::Simple(b"PONG".to_vec())) {
         return Err(format!("PING after the transaction answered {:?}", r.map(|x| x.show())));
     }
-    if m.watch_get.is_some() {
-        // the executor compares typed values: the GET-view finding does not exist here
-        return Err(m.watch_get.unwrap());
+    if let Some(msg) = &m.rearm {
+        // exact matcher satisfied (see watch_expectation): the transaction was checked as an
+        // applied one against the twin
+        if ctx.tolerate(KF_REARM) {
+            ctx.label("kf03_rewatch_rearmed_resynced");
+        } else {
+            return Err(msg.clone());
+        }
     }
     for l in &m.labels {
         ctx.label(l);
@@ -1372,15 +1384,36 @@ fn main() {
         },
     );
 
+    s.probe(
+        KF_REARM,
+        json!({"tier": "executor", "script": ["WATCH k0", "(other client) APPEND k0 !", "WATCH k0", "MULTI", "GET k1", "EXEC"]}),
+        || {
+            let sc = Script {
+                shards: 1,
+                seed_types: true,
+                setup: vec![],
+                watches: vec![WatchStep::Watch(vec![key_idx(0)]), WatchStep::Watch(vec![key_idx(0)])],
+                body: vec![BodyItem::Cmd(argv(&["LLEN", "k1"]))],
+                exec: true,
+                // placed before A's second step = between the two WATCHes
+                b: vec![BAction {
+                    at: 0x4000,
+                    op: BOp::Change(key_idx(0)),
+                }],
+                tail: None,
+            };
+            s.strict_eval(|ctx| check_exec_script(&sc, ctx)).err()
+        },
+    );
     s.describe_check("conn_scripts", "two real connection handlers on one ShardedActorState in lock-step; twin server for the sequential run");
-    s.run_cases("conn_scripts", s.scale(40_000, 750_000), || script(false), check_conn_script);
+    s.run_cases("conn_scripts", s.scale(20_000, 750_000), || script(false), check_conn_script);
     s.describe_check(
         "conn_level_scripts",
         "the same with connection-level commands (ACL WHOAMI/USERS, AUTH, HELLO) allowed in the body: scripts containing one are excluded (counted) while KF-C05-02 is open",
     );
     s.run_cases("conn_level_scripts", s.scale(2_000, 30_000), || script(true), check_conn_script);
     s.describe_check("exec_scripts", "executor-level MULTI/EXEC/WATCH on one CommandExecutor; twin executor for the sequential run");
-    s.run_cases("exec_scripts", s.scale(60_000, 1_000_000), || script(false), check_exec_script);
+    s.run_cases("exec_scripts", s.scale(40_000, 1_000_000), || script(false), check_exec_script);
     s.finish();
 }
 
